@@ -215,3 +215,49 @@ def interpreter_depth_limits():
         else:
             lo = mid + 1
     return lo, sys.getrecursionlimit()
+
+
+# ---------------------------------------------------------------------------
+# Long bodies: sizes around and beyond the powers of two a buffer, a limit or an
+# echo cut-off is likely to use, padded with characters of 1..4 bytes at every
+# alignment
+
+LONG_SHAPES = ["garbage", "string-scalar", "truncated", "no-request", "valid-echo", "long-method", "long-id",
+               "bad-method-long-id", "batch-mixed", "padded-valid", "padded-malformed", "long-key"]
+
+
+@st.composite
+def long_texts(draw, max_bytes=70000):
+    pad_char = draw(st.sampled_from(["x", "\u00e9", "\u20ac", "\U0001F600", "\u00e9", "\U0001F600", "\\u00e9", "1", "ab\u00e9"]))
+    near = st.sampled_from([256, 512, 1024, 2048, 4096, 8192, 16384, 32768, 65536]).flatmap(lambda b: st.integers(b - 48, b + 48))
+    target = draw(st.one_of(near, near, st.integers(100, max_bytes)))
+    target = min(target, max_bytes)
+    shift = draw(st.text("ab", max_size=3))
+    n = max(1, target // len(pad_char.encode("utf-8")))
+    pad = shift + pad_char * n
+    shape = draw(st.sampled_from(LONG_SHAPES))
+    if shape == "garbage":
+        text = pad
+    elif shape == "string-scalar":
+        text = '"' + pad + '"'
+    elif shape == "truncated":
+        text = '{"jsonrpc": "2.0", "method": "echo", "id": 1, "params": ["' + pad
+    elif shape == "no-request":
+        text = '{"a": "' + pad + '"}'
+    elif shape == "valid-echo":
+        text = '{"jsonrpc": "2.0", "method": "echo", "id": 1, "params": ["' + pad + '"]}'
+    elif shape == "long-method":
+        text = '{"jsonrpc": "2.0", "method": "' + pad + '", "id": 1}'
+    elif shape == "long-id":
+        text = '{"jsonrpc": "2.0", "method": "echo", "id": "' + pad + '"}'
+    elif shape == "bad-method-long-id":
+        text = '{"jsonrpc": "2.0", "method": 7, "id": "' + pad + '"}'
+    elif shape == "batch-mixed":
+        text = '[{"jsonrpc": "2.0", "method": "echo", "id": 1, "params": ["' + pad + '"]}, 1, {"a": "' + pad + '"}]'
+    elif shape == "padded-valid":
+        text = " " * n + '{"jsonrpc": "2.0", "method": "echo", "id": 1, "params": ["' + shift + pad_char + '"]}' + "\n" * 3
+    elif shape == "padded-malformed":
+        text = " " * n + '{"jsonrpc": "2.0", "method": "echo", "id": 1, "params": ["' + shift + pad_char + '"'
+    else:
+        text = '{"jsonrpc": "2.0", "method": "kw", "id": 1, "params": {"' + pad + '": 1}}'
+    return ("text", text), shape
